@@ -81,6 +81,7 @@ class SimFuture(_REAL_FUTURE):  # type: ignore[misc]
             sim.open_futures[self._sim_id] = self
         else:
             self._sim_id = -1
+        self._sim_label = f'local-future#{self._sim_id}/r{self._sim_owner}'
 
     def done(self) -> bool:
         return self._sim_done
@@ -135,6 +136,8 @@ class SimFuture(_REAL_FUTURE):  # type: ignore[misc]
     def then(self, cb: Callable[['SimFuture'], Any]) -> 'SimFuture':
         nxt = SimFuture()
         nxt._sim_owner = self._sim_owner
+        nxt._sim_label = getattr(self, '_sim_label',  # type: ignore
+                                 'local-future') + '.then'
 
         def run(f: 'SimFuture') -> None:
             try:
@@ -236,6 +239,12 @@ class SimCfg:
 
     def __init__(self, **kw: Any) -> None:
         self.poison = kw.get('poison', False)
+        # rendezvous-style transport: the payload is read from the send
+        # buffer when the collective completes, not when it is posted
+        self.late_read = kw.get('late_read', False)
+        # gloo-like transport: collectives of one group may complete out of
+        # order (matching is still by sequence); NCCL-like when True
+        self.fifo = kw.get('fifo', True)
         self.latency = kw.get('latency', 1e-4)
         self.bandwidth = kw.get('bandwidth', 1e9)
         self.step_cost = kw.get('step_cost', 1e-5)
@@ -329,11 +338,13 @@ class Sim:
     def _completable(self) -> list[tuple[tuple, Op]]:
         out = []
         for gid in self.ops:
-            h = self.head[gid]
             lst = self.ops[gid]
-            if h < len(lst):
-                op = lst[h]
-                if len(op.posts) == len(gid[1]):
+            while self.head[gid] < len(lst) and lst[
+                    self.head[gid]].completed:
+                self.head[gid] += 1
+            h = self.head[gid]
+            for op in lst[h:] if not self.cfg.fifo else lst[h:h + 1]:
+                if not op.completed and len(op.posts) == len(gid[1]):
                     out.append((gid, op))
         return out
 
@@ -372,10 +383,11 @@ class Sim:
                     and r.blocked_on.done()
                 ):
                     enabled.append(('run', r.idx))
-            comp = sorted(self._completable(), key=lambda x: x[0])
+            comp = sorted(self._completable(),
+                          key=lambda x: (x[0], x[1].index))
             timed = [(g, o) for g, o in comp if o.ready_at <= self.now]
             for g, o in timed:
-                enabled.append(('complete', g))
+                enabled.append(('complete', g, o.index))
             if not enabled:
                 if comp:
                     # nothing runnable before the next completion: jump clock
@@ -409,7 +421,9 @@ class Sim:
                 r.sem.release()
                 self.sched_sem.acquire()
             else:
-                self._complete(act[1])
+                if act[2] != self.head[act[1]]:
+                    self.fault('out_of_order_completion')
+                self._complete(act[1], act[2])
             if (
                 self.cfg.crash_at_event is not None
                 and self.n_events >= self.cfg.crash_at_event
@@ -429,6 +443,8 @@ class Sim:
                 self.deadlock_info.append(f'rank {r.idx} {r.state}')
         for gid, lst in self.ops.items():
             h = self.head[gid]
+            while h < len(lst) and lst[h].completed:
+                h += 1
             if h < len(lst):
                 op = lst[h]
                 missing = [x for x in gid[1] if x not in op.posts]
@@ -565,9 +581,8 @@ class Sim:
         return fut
 
     # -- completion --------------------------------------------------------
-    def _complete(self, gid: tuple) -> None:
-        op = self.ops[gid][self.head[gid]]
-        self.head[gid] += 1
+    def _complete(self, gid: tuple, index: int) -> None:
+        op = self.ops[gid][index]
         op.completed = True
         members = gid[1]
         posts = [op.posts[m] for m in members]
@@ -597,6 +612,8 @@ class Sim:
         out = []
         for gid, lst in self.ops.items():
             for op in lst[self.head[gid]:]:
+                if op.completed:
+                    continue
                 out.append(
                     f'group {gid} op#{op.index} posted by {sorted(op.posts)}',
                 )
@@ -634,10 +651,18 @@ def _check_send_unchanged(sim: Sim, p: dict[str, Any], what: str) -> None:
                       label=p['future']._sim_label)
 
 
+def _payload(sim: Sim, p: dict[str, Any]) -> torch.Tensor:
+    if sim.cfg.late_read and not p.get('poisoned'):
+        if not torch.equal(p['tensor'], p['snap']):
+            sim.fault('late_read_saw_modified_buffer')
+        return p['tensor'].detach().clone()
+    return p['snap']
+
+
 def _c_all_reduce(sim: Sim, members: tuple, posts: list) -> None:
-    acc = posts[0]['snap'].clone()
+    acc = _payload(sim, posts[0]).clone()
     for p in posts[1:]:
-        acc = acc + p['snap']
+        acc = acc + _payload(sim, p)
     for p in posts:
         _check_send_unchanged(sim, p, 'all_reduce')
         p['tensor'].copy_(acc)
@@ -653,10 +678,11 @@ def _c_broadcast(sim: Sim, members: tuple, posts: list) -> None:
     if src is None:
         raise RuntimeError('broadcast root is not a member')
     _check_send_unchanged(sim, {**src, 'poisoned': False}, 'broadcast')
+    data = _payload(sim, {**src, 'poisoned': False})
     for m, p in zip(members, posts):
         if m != root:
             _check_send_unchanged(sim, p, 'broadcast')
-            p['tensor'].copy_(src['snap'])
+            p['tensor'].copy_(data)
         p['future'].set_result([p['tensor']])
 
 
@@ -786,6 +812,12 @@ class SimDist:
                    group: Any = None, async_op: bool = False) -> Any:
         sim = active()
         payload = {'out_list': tensor_list, 'snap': tensor.detach().clone()}
+        if sim.cfg.poison and async_op:
+            with torch.no_grad():
+                for o in tensor_list:
+                    if _poisonable(o):
+                        o.fill_(float('nan'))
+            sim.fault('inflight_poison')
         fut = sim.post(group, 'all_gather', dtype=tensor.dtype,
                        numel=tensor.numel(), root=None, payload=payload,
                        sync=not async_op)
@@ -798,6 +830,10 @@ class SimDist:
         sim = active()
         payload = {'tensor': output,
                    'snaps': [t.detach().clone() for t in input_list]}
+        if sim.cfg.poison and async_op and _poisonable(output):
+            with torch.no_grad():
+                output.fill_(float('nan'))
+            sim.fault('inflight_poison')
         fut = sim.post(group, 'reduce_scatter', dtype=output.dtype,
                        numel=output.numel(), root=None, payload=payload,
                        sync=not async_op)
